@@ -47,6 +47,7 @@ const (
 	shortWait   = 2500 * time.Millisecond // how long a request the known defect may starve is given
 	leakWait    = 3 * time.Second         // how long a want-list that holds only delivered keys is watched
 	divergeWait = 10 * time.Second        // how long the engine is given to reach the prediction of the defective variant
+	unitWait    = 30 * time.Second        // deadline inside a unit / node case; when it passes the case is cut short
 )
 
 // ---------- block universe ----------
@@ -195,11 +196,13 @@ func runUnit(t *testing.T, reqKeys [][]int, evs []uev) (string, map[string]any) 
 		}
 		reqs[i] = r
 	}
+	stuck := false            // a deadline passed: stop driving, what was observed goes to Coq as it is
 	finish := func(r *ureq) { // the request must now close its channel and call the callback once
 		for {
-			b, open, to := recvBlock(r.ch, longWait)
+			b, open, to := recvBlock(r.ch, unitWait)
 			if to {
-				t.Fatalf("output channel neither delivers nor closes")
+				stuck = true
+				return
 			}
 			if !open {
 				break
@@ -210,21 +213,25 @@ func runUnit(t *testing.T, reqKeys [][]int, evs []uev) (string, map[string]any) 
 		select {
 		case cs := <-r.cbCh:
 			r.cbSeen, r.cb = true, u.ids(cs)
-		case <-time.After(longWait):
-			t.Fatalf("cancel callback not called after the channel closed")
+		case <-time.After(unitWait):
+			stuck = true
 		}
 		r.done = true
 	}
 	for _, e := range evs {
+		if stuck {
+			break
+		}
 		if e.Pub {
 			notif.Publish(peer.ID("src"), u.blks[e.K])
 			for _, r := range reqs {
-				if r.done || !r.sub[e.K] {
+				if r.done || !r.sub[e.K] || stuck {
 					continue
 				}
-				b, open, to := recvBlock(r.ch, longWait)
+				b, open, to := recvBlock(r.ch, unitWait)
 				if to {
-					t.Fatalf("published block %d not delivered to a subscribed request", e.K)
+					stuck = true
+					continue
 				}
 				if !open {
 					r.closed, r.done = true, true
@@ -450,6 +457,7 @@ func runNode(t *testing.T, evs []nev) (string, map[string]any) {
 	// the other prediction may be a transient state), and from then on only the variant that
 	// the engine followed is waited for.
 	follow := ""
+	stuck := false
 	waitFor := func(want []int, d time.Duration) ([]int, bool) {
 		deadline := time.Now().Add(d)
 		for {
@@ -467,20 +475,23 @@ func runNode(t *testing.T, evs []nev) (string, map[string]any) {
 		pon, poff := on.wantlist(), off.wantlist()
 		switch {
 		case intsEq(pon, poff) || follow == "on":
-			got, _ := waitFor(pon, longWait)
-			return got // on a timeout Coq reports the mismatch
+			got, ok := waitFor(pon, unitWait)
+			stuck = stuck || !ok // on a timeout Coq reports the mismatch and the case ends here
+			return got
 		case follow == "off":
-			got, _ := waitFor(poff, longWait)
+			got, ok := waitFor(poff, unitWait)
+			stuck = stuck || !ok
 			return got
 		}
 		if got, ok := waitFor(pon, divergeWait); ok {
 			follow = "on"
 			return got
 		}
-		got, ok := waitFor(poff, longWait)
+		got, ok := waitFor(poff, unitWait)
 		if ok {
 			follow = "off"
 		}
+		stuck = stuck || !ok
 		return got
 	}
 	emit := func(ev string, obs []int, have bool) {
@@ -509,14 +520,14 @@ func runNode(t *testing.T, evs []nev) (string, map[string]any) {
 			if !must[i] && !may[i] {
 				continue
 			}
-			d := longWait
+			d := unitWait
 			if may[i] {
 				d = shortWait
 				if (follow == "on" && !inOn[i]) || (follow == "off" && !inOff[i]) {
 					continue // the variant the engine follows does not deliver here
 				}
 				if (follow == "on" && inOn[i]) || (follow == "off" && inOff[i]) {
-					d = longWait
+					d = unitWait
 				}
 			}
 			b, open, to := recvBlock(r.ch, d)
@@ -531,6 +542,9 @@ func runNode(t *testing.T, evs []nev) (string, map[string]any) {
 		}
 	}
 	for _, e := range evs {
+		if stuck {
+			break
+		}
 		switch e.Kind {
 		case "start":
 			rctx, cancel := context.WithCancel(ctx)
@@ -589,9 +603,10 @@ func runNode(t *testing.T, evs []nev) (string, map[string]any) {
 			on.cancel(e.K)
 			off.cancel(e.K)
 			for !r.closed {
-				b, open, to := recvBlock(r.ch, longWait)
+				b, open, to := recvBlock(r.ch, unitWait)
 				if to {
-					t.Fatalf("channel of a cancelled request does not close")
+					stuck = true
+					break
 				}
 				if !open {
 					r.closed = true
